@@ -10,6 +10,8 @@ SECP256K1_EC_UNCOMPRESSED = 2
 NONCEFN = ctypes.CFUNCTYPE(c_int, c_void_p, c_void_p, c_void_p, c_void_p, c_void_p, c_uint)
 # schnorr nonce fn: (nonce32, msg, msglen, key32, xonly_pk32, algo, algolen, data)
 NONCEFN_HARDENED = ctypes.CFUNCTYPE(c_int, c_void_p, c_void_p, c_size_t, c_void_p, c_void_p, c_void_p, c_size_t, c_void_p)
+# ecdsa adaptor nonce fn: (nonce32, msg32, key32, pk33, algo, algolen, data)
+NONCEFN_ADAPTOR = ctypes.CFUNCTYPE(c_int, c_void_p, c_void_p, c_void_p, c_void_p, c_void_p, c_size_t, c_void_p)
 ECDH_HASHFN = ctypes.CFUNCTYPE(c_int, c_void_p, c_void_p, c_void_p, c_void_p)
 ELLSWIFT_HASHFN = ctypes.CFUNCTYPE(c_int, c_void_p, c_void_p, c_void_p, c_void_p, c_void_p)
 
@@ -37,8 +39,7 @@ class Lib:
         d = self.dll
         for fn in ("vf_ctx_new", "vf_ctx_static", "secp256k1_context_create", "secp256k1_context_clone",
                    "secp256k1_context_preallocated_create", "secp256k1_context_preallocated_clone",
-                   "secp256k1_scratch_space_create", "secp256k1_bppp_generators_create", "secp256k1_bppp_generators_parse",
-                   "secp256k1_surjectionproof_allocate_initialized"):
+                   "secp256k1_scratch_space_create", "secp256k1_bppp_generators_create", "secp256k1_bppp_generators_parse"):
             if hasattr(d, fn):
                 getattr(d, fn).restype = c_void_p
         for fn in ("vf_get_illegal", "vf_get_error", "vf_get_alloc_count", "vf_get_alloc_live", "vf_get_compress_calls"):
